@@ -29,6 +29,7 @@ static std::string weight_token(Rng &r, double &val, bool allow_nonpos) {
 static DimacsDoc gen_doc(Rng &r, int max_n, int max_m) {
     DimacsDoc d;
     d.n = r.range(0, max_n); if (r.chance(0.7)) d.n = std::max<long>(d.n, 2);
+    bool big = r.chance(0.004); if (big) { d.n = r.range(65600, 70000); d.features.push_back("declares_more_than_65535_vertices"); }
     int m = d.n >= 1 ? (int) r.range(0, max_m) : 0;
     bool bad_vertex = d.n >= 1 && m > 0 && r.chance(0.08);
     std::vector<std::string> lines;
@@ -41,13 +42,15 @@ static DimacsDoc gen_doc(Rng &r, int max_n, int max_m) {
     for (int i = 0; i < m; i++) {
         if (r.chance(0.15)) { lines.push_back(comment()); d.features.push_back("comment_between_edges"); }
         FileEdge e; e.u = r.range(1, d.n); e.v = r.range(1, d.n);
+        if (big && r.chance(0.7)) { e.u = r.range(65530, d.n); if (r.chance(0.5)) e.v = r.range(65530, d.n); }   // d.n >= 65600 here
         if (i == bad_at) { if (r.chance(0.5)) e.u = r.chance(0.5) ? 0 : d.n + r.range(1, 3); else e.v = r.chance(0.5) ? 0 : d.n + r.range(1, 3); d.must_throw = true; d.features.push_back("undeclared_vertex"); }
+        if (e.u < 1 || e.u > d.n || e.v < 1 || e.v > d.n) d.must_throw = true;   // the expectation follows the text that is written, whatever the generator intended
         e.has_w = r.chance(0.7); e.w = 1.0;
         if (e.has_w) e.wtok = weight_token(r, e.w, true);
         char b[256]; const char *sep = r.chance(0.1) ? "  " : " ";
         if (e.has_w) snprintf(b, sizeof b, "%c%s%ld%s%ld%s%s", r.chance(0.5) ? 'e' : 'a', sep, e.u, sep, e.v, sep, e.wtok.c_str());
         else snprintf(b, sizeof b, "%c%s%ld%s%ld", r.chance(0.5) ? 'e' : 'a', sep, e.u, sep, e.v);
-        lines.push_back(b);
+        { std::string L = b; if (r.chance(0.02)) { size_t pad = (size_t) r.range(200, 900); size_t at = L.find(' '); L.insert(at, std::string(pad, ' ')); d.features.push_back("edge_line_longer_than_200_bytes"); } lines.push_back(L); }
         if (d.must_throw && i == bad_at) { /* edges after the bad one are never compared */ }
         d.edges.push_back(e);
     }
